@@ -12,6 +12,7 @@
   `BaseException` raised by a host `__str__` is outside the claimed domain.
 -/
 import DeepModel.Proofs.CollectorSnap
+import DeepModel.Proofs.CollectorShape
 import DeepModel.Proofs.CollectorBenign
 import DeepModel.Proofs.CollectorExamples
 import DeepModel.Proofs.FramesEntries
@@ -86,6 +87,80 @@ theorem c06_entry_local (H : Heap) (a : ActionIn) (s : Snapshot) (h : collect H 
     ∀ e ∈ s.table, ∃ text, renderText (H.obj e.obj) = .ok text ∧ e.ty = (H.obj e.obj).tyName ∧
       e.value = (truncateString text a.limits.maxStr).1 ∧ e.truncated = (truncateString text a.limits.maxStr).2 :=
   Frames.collect_ok h
+
+/-- **the shape of a snapshot does not depend on `str`** — two heaps that agree on every raw fact except the outcome of
+    `str` (value or raise) and the placeholder text produce the same outcome up to the `value` / `truncated` fields of the
+    entries: same failure or same frames, same ids, same references, same child lists, same watch results. -/
+theorem c06_shape_independent (H H' : Heap) (hs : SameShape H H') (a : ActionIn) :
+    eraseO (collect H a) = eraseO (collect H' a) := collect_shape hs a
+
+/-- a `str` that starts to raise never turns a snapshot into a failure (nor the other way round) -/
+theorem c06_str_never_fails (H H' : Heap) (hs : SameShape H H') (a : ActionIn) :
+    (∃ s, collect H a = .ok s) ↔ (∃ s', collect H' a = .ok s') := by
+  have h := collect_shape hs a
+  constructor
+  · rintro ⟨s, e⟩
+    rw [e] at h
+    cases hc : collect H' a with
+    | failed m => rw [hc] at h; simp [eraseO] at h
+    | ok s' => exact ⟨s', rfl⟩
+  · rintro ⟨s, e⟩
+    rw [e] at h
+    cases hc : collect H a with
+    | failed m => rw [hc] at h; simp [eraseO] at h
+    | ok s' => exact ⟨s', rfl⟩
+
+/-- **every other variable intact** — let `H'` be `H` with the `str` behaviour of the single object `o` changed (it now
+    raises, or yields another text).  Then both snapshots have the same frames, the same watch results, the same ids in the
+    same order, and every entry that is not the entry of `o` is in the other snapshot unchanged — type, value, truncation
+    flag, children. -/
+theorem c06_others_intact (H H' : Heap) (o : ObjId) (hs : SameShape H H') (hsame : ∀ i, i ≠ o → H.obj i = H'.obj i)
+    (a : ActionIn) (s s' : Snapshot) (h : collect H a = .ok s) (h' : collect H' a = .ok s') :
+    s.frames = s'.frames ∧ s.watches = s'.watches ∧ s.table.map (·.vid) = s'.table.map (·.vid) ∧
+    ∀ e ∈ s.table, e.obj ≠ o → e ∈ s'.table := by
+  have hsh := collect_shape hs a
+  rw [h, h'] at hsh
+  simp only [eraseO, Outcome.ok.injEq, Snapshot.mk.injEq] at hsh
+  obtain ⟨hf, ht, hw⟩ := hsh
+  refine ⟨hf, hw, ?_, ?_⟩
+  · have := congrArg (List.map (·.vid)) ht
+    simp only [eraseT, List.map_map] at this
+    have hc : ((fun x : Entry => x.vid) ∘ eraseE) = (fun x : Entry => x.vid) := by funext x; rfl
+    rw [hc] at this
+    exact this
+  · intro e he hne
+    have hm : eraseE e ∈ eraseT s'.table := by
+      rw [← ht]; exact List.mem_map_of_mem he
+    simp only [eraseT, List.mem_map] at hm
+    obtain ⟨e', he', hee⟩ := hm
+    have hfields : e'.vid = e.vid ∧ e'.ty = e.ty ∧ e'.obj = e.obj ∧ e'.children = e.children ∧ e'.depth = e.depth := by
+      simp only [eraseE, Entry.mk.injEq] at hee
+      exact ⟨hee.1, hee.2.1, hee.2.2.2.1, hee.2.2.2.2.1, hee.2.2.2.2.2.2⟩
+    obtain ⟨tx, r1, _, v1, t1⟩ := Frames.collect_ok h e he
+    obtain ⟨tx', r1', _, v1', t1'⟩ := Frames.collect_ok h' e' he'
+    rw [hfields.2.2.1, ← hsame e.obj hne, r1] at r1'
+    simp only [Except.ok.injEq] at r1'
+    subst r1'
+    have : e' = e := by
+      cases e; cases e'
+      simp only [Entry.mk.injEq] at hfields ⊢
+      simp only at v1 t1 v1' t1'
+      exact ⟨hfields.1, hfields.2.1, by rw [v1, v1'], hfields.2.2.1, hfields.2.2.2.1, by rw [t1, t1'], hfields.2.2.2.2⟩
+    rw [← this]; exact he'
+
+/-- `Ex.strRaises` and `Ex.strFine` are such a pair (the hypotheses are not vacuous) -/
+example : SameShape Ex.strRaises Ex.strFine := by
+  intro (i : Nat)
+  have : i = 0 ∨ i = 1 ∨ i = 2 ∨ 3 ≤ i := by omega
+  rcases this with rfl | rfl | rfl | h3
+  · rfl
+  · rfl
+  · rfl
+  · have l1 : Ex.strRaises.objs.length = 3 := rfl
+    have l2 : Ex.strFine.objs.length = 3 := rfl
+    have e1 : Ex.strRaises.objs[i]? = none := List.getElem?_eq_none (by rw [l1]; exact h3)
+    have e2 : Ex.strFine.objs[i]? = none := List.getElem?_eq_none (by rw [l2]; exact h3)
+    simp [Heap.obj, e1, e2]
 
 /-- the concrete pair: the same frame with `str(p)` raising and not raising yields the same snapshot except for the
     value of `p`'s entry, which is the placeholder -/
